@@ -1706,8 +1706,10 @@ class HTMLDependency(MetadataNode):
 
         return Tag(
             "script",
-            # "</script>" in a script tag must be escaped
-            json.dumps(res, indent=indent).replace("</script>", "<\\/script>"),
+            # Anything that looks like a "</script" end tag (in any letter case, with or
+            # without a following ">") must be escaped inside a script tag. "\\/" is a
+            # valid JSON escape for "/", so the value is unchanged when parsed.
+            re.sub("</(script)", r"<\\/\1", json.dumps(res, indent=indent), flags=re.I),
             type="application/json",
             data_html_dependency=True,
         )
